@@ -33,6 +33,16 @@ CLAIMED = {
    technique='static analysis: index-bound entailment and count taint over package parsers (exported methods as entry points), nil-ness cut for decoded numeric fields, constant/codec agreement between builder and parsers',
    text='Decides totality clauses of the four parsers (all index/slice sites entailed in range incl. the parity lemma for the stride-2 loop and strings.Split length facts; the transfer count bounded before it is multiplied; decoded *big.Int fields nil-checked) and the grammar agreement builder <-> parsers (same separator constant, hex codec on every appended element). The round trip as an equation over all strings is not decided.',
    note='Trusted: go/types + go/ssa; A-len; strings.Split returns >= 1 element for a non-empty separator.'),
+ 'C13': dict(
+   level='other', design='DESIGN.md §5 C13',
+   technique='static analysis: interprocedural derivation set of the input structure with write/append/copy/mutator sinks; initialiser provenance of shared append bases; reachability-scoped scan for hidden state and nondeterminism sources with a positive control',
+   text='Decides that nothing reachable from the entry points writes into memory derived from the input (stores, map updates, append/copy destinations, big.Int mutators), that every shared append base is initialised only from []byte(constant) so append always copies, that the shared big.Int zero never escapes or mutates, and that the execution region (entry points and parsers) contains no store to receiver/global state, map range, goroutine, channel, clock, randomness, reflection or %p. Determinism of the injected dependencies is assumed (A-deps).',
+   note='Trusted: go/types + go/ssa; A-constcap (gc: []byte(const) has cap == len); A-deps.'),
+ 'C19': dict(
+   level='other', design='DESIGN.md §5 C19',
+   technique='static analysis: lockset dataflow ({unlocked, read, write} per mutex, defer-aware) with inferred guarded-field sets and call-site inheritance for helpers; critical-section counting; atomic-discipline and field-write-ownership checks',
+   text='The sound static counterpart of the race/linearizability statement: balanced locking on every path; all guarded fields (map values; cost and per-byte prices of the 15 priced objects) accessed under the right lock mode; each execution is one read-locked region released only by defer and each repricing rewrites all guarded fields in one write-locked region (hence one schedule per execution); every map operation is a single critical section and every container method a single map operation; atomic wrappers use only sync/atomic without load-then-store; all other object fields are immutable after construction. Histories are not enumerated.',
+   note='Trusted: go/types + go/ssa; sync.RWMutex / sync/atomic semantics; objects are published after construction.'),
  'C16': dict(
    level='other', design='DESIGN.md §5 C16',
    technique='static analysis: three-way table agreement (factory argument / constructor field / SetNewGasConfig copy) against T-REG, field-read ownership, CFG cuts for all-or-nothing schedule changes, must-pass-through charge points',
